@@ -516,7 +516,18 @@ func (l *Lexer) shiftEndTag() []byte {
 		break
 	}
 	l.text = l.text[:end]
-	return parse.ToLower(l.r.Shift())
+
+	// lower-case the tag name only
+	data := l.r.Shift()
+	n := 2
+	for n < len(data) {
+		if c := data[n]; c == ' ' || c == '>' || c == '/' || c == '\t' || c == '\n' || c == '\r' || c == '\f' {
+			break
+		}
+		n++
+	}
+	parse.ToLower(data[2:n])
+	return data
 }
 
 // shiftXML parses the content of a svg or math tag according to the XML 1.1 specifications, including the tag itself.
